@@ -70,6 +70,12 @@ func heapCmp(dir int) func(a, b Elem) int {
 			return cmpElem(a, b)
 		}
 	}
+	switch dir {
+	case 3:
+		return cmpElemWide
+	case 4:
+		return func(a, b Elem) int { return 2 * (b.Key - a.Key) }
+	}
 	return cmpElem
 }
 
@@ -78,6 +84,7 @@ type heapOpts struct {
 	checkOrder bool // C05: Front/Pop minimal, drain sorted
 	checkPos   bool // C06: reported positions
 	fixParent  bool // counterfactual run
+	light      bool // large histories: the O(n) parts of the per-step check run every 37th step (and on every Pop/Remove result)
 }
 
 type heapStats struct {
@@ -139,6 +146,15 @@ func heapRun(c *fw.Ctx, ops []hop, opt heapOpts) (div *heapDiv, st heapStats) {
 	check := func() *heapDiv {
 		if q.Len() != len(ref) || q.IsEmpty() != (len(ref) == 0) {
 			return fail("Len=%d IsEmpty=%v with %d elements held", q.Len(), q.IsEmpty(), len(ref))
+		}
+		if opt.light && step%37 != 0 {
+			f := q.Front()
+			if len(ref) > 0 {
+				if x, ok := ref[f.Tag]; !ok || x != f {
+					return fail("Front=%v is not held", f)
+				}
+			}
+			return nil
 		}
 		seen := map[int]bool{}
 		var bad *heapDiv
@@ -386,7 +402,7 @@ func heapGenOps(r *rand.Rand, n int, keyRange int, byPos bool) []hop {
 		for i := range ks {
 			ks[i] = key()
 		}
-		ops = append(ops, hop{Op: 'N', Keys: ks, Dir: r.IntN(3), I: r.IntN(4)})
+		ops = append(ops, hop{Op: 'N', Keys: ks, Dir: r.IntN(5), I: r.IntN(4)})
 		size = m
 	}
 	for len(ops) < n {
@@ -441,11 +457,64 @@ func heapGenOps(r *rand.Rand, n int, keyRange int, byPos bool) []hop {
 			ops = append(ops, hop{Op: 'S', Keys: ks})
 			size = m
 		case 10:
-			ops = append(ops, hop{Op: 'O', Dir: r.IntN(3)})
+			ops = append(ops, hop{Op: 'O', Dir: r.IntN(5)})
 		case 11:
 			if r.IntN(4) == 0 {
 				ops = append(ops, hop{Op: 'C'})
 				size = 0
+			}
+		}
+	}
+	return ops
+}
+
+// heapGenLarge generates a history on a large queue: a bulk load of n elements
+// (Set, NewWithData or n Adds), then a few hundred mixed operations, so that
+// size-dependent code paths (thresholds at 1024, 4096, ...) are exercised; the
+// final drain of heapRun then empties the queue in order.
+func heapGenLarge(r *rand.Rand, n, keyRange int, byPos bool) []hop {
+	var ops []hop
+	ks := make([]int, n)
+	for i := range ks {
+		ks[i] = r.IntN(keyRange)
+	}
+	switch r.IntN(3) {
+	case 0:
+		ops = append(ops, hop{Op: 'S', Keys: ks})
+	case 1:
+		ops = append(ops, hop{Op: 'N', Keys: ks, Dir: r.IntN(5), I: r.IntN(3)})
+	default:
+		for _, k := range ks {
+			ops = append(ops, hop{Op: 'A', Key: k})
+		}
+	}
+	size := n
+	for j := 0; j < 300+r.IntN(500); j++ {
+		switch x := r.IntN(10); {
+		case x < 4:
+			ops = append(ops, hop{Op: 'P'})
+			if size > 0 {
+				size--
+			}
+		case x < 6:
+			ops = append(ops, hop{Op: 'A', Key: r.IntN(keyRange)})
+			size++
+		case x < 9:
+			if byPos {
+				ops = append(ops, hop{Op: 'T', I: r.IntN(1 << 20)})
+				if size > 0 {
+					size--
+				}
+			} else {
+				i := r.IntN(size + 1)
+				ops = append(ops, hop{Op: 'R', I: i})
+				if i < size {
+					size--
+				}
+			}
+		default:
+			if r.IntN(6) == 0 {
+				ops = append(ops, hop{Op: 'O', Dir: r.IntN(5)})
 			}
 		}
 	}
